@@ -1081,7 +1081,76 @@ CAPS = {"quick": {}, "thorough": {}}
 FRESH_FINAL = {"lut8_wrapper"}  # float queries: decided by a fresh (non-incremental, tactic-based) z3 solver; the incremental core times out on them
 RLIMIT = 2_000_000_000  # the 32x32->64 multiplier equivalences need far more solver resource than the engine default
 
-FUNCS = {"kernel": kernel, "mbqm": mbqm, "exp_interval": exp_interval, "exp_neg": exp_neg, "exp_neg_struct": exp_neg_struct,
+def mulmax_rewrite(V, shared_first):
+    """Max(x, Mul(x, c)) is replaced by a LeakyReLU table (c >= 0) or Abs (c == -1) - the REAL convert_mul_max_to_abs_or_lrelu on real
+    Operation/Tensor objects.  The table generator assumes that the product is on the input/output scale, so the rewrite is only sound when
+    the input, the Mul output and the Max output are quantised identically: equality of quantisation is answered by free Booleans (one per
+    tensor pair), the constant, the presence of a fused activation on the Mul and a second consumer of the Mul output are symbolic."""
+    import ethosu.vela.tflite_graph_optimiser as go
+    from ethosu.vela.operation import Op, Operation
+    from ethosu.vela.tensor import Tensor, QuantizationParameters, create_const_tensor
+    from ethosu.vela.data_type import DataType
+    import numpy as np
+
+    dtype = V.choice("dtype", ["int8", "uint8", "int16"])
+    dt = getattr(DataType, dtype)
+
+    def q():
+        r = QuantizationParameters()
+        r.scale_f32, r.zero_point = np.float32(0.5), 0
+        return r
+
+    def tens(name, d=dt):
+        t = Tensor([1, 4, 4, 8], d, name)
+        t.quantization = q()
+        return t
+
+    x, mo, out = tens("x"), tens("mul_out"), tens("out", dt if not bool(V.bool("ofm_other_dtype")) else (DataType.int16 if dtype != "int16" else DataType.int8))
+    src = Operation(Op.Relu, "src")
+    src.set_output_tensor(x)
+    cval = V.int("const", -3, 3)
+    c = create_const_tensor("c", [], dt, [1], quantization=q())
+    c.values = cval
+    mul = Operation(Op.Mul, "mul")
+    for t in ((x, c) if shared_first else (c, x)):
+        mul.add_input_tensor(t)
+    mul.set_output_tensor(mo)
+    fused = bool(V.bool("mul_has_fused_activation"))
+    mul.activation = object() if fused else None
+    mx = Operation(Op.Maximum, "Maximum")
+    for t in ((x, mo) if shared_first else (mo, x)):
+        mx.add_input_tensor(t)
+    mx.set_output_tensor(out)
+    second = bool(V.bool("mul_out_second_consumer"))
+    if second:
+        o2 = Operation(Op.Relu, "other")
+        o2.add_input_tensor(mo)
+        o2.set_output_tensor(tens("o2"))
+    eq = {}
+
+    def scaling_equal(a, b):
+        k = tuple(sorted((a.name, b.name)))
+        if k not in eq:
+            eq[k] = V.bool("same_quantisation_%s_%s" % k)
+        return eq[k]
+
+    with core.shims((go, {"check_quantized_tens_scaling_equal": scaling_equal})):
+        res = go.convert_mul_max_to_abs_or_lrelu(mx, None, None)
+    if res.type == Op.Maximum:
+        return None  # not rewritten: nothing to claim
+    kx, km = ("out", "x"), ("mul_out", "x")
+    both = z3.And(B(eq[kx]) if kx in eq else z3.BoolVal(False), B(eq[km]) if km in eq else z3.BoolVal(False))
+    cl = [("rewritten only when input, Mul output and Max output are quantised identically", both),
+          ("rewritten only for 8-bit tensors of one type", dtype in ("int8", "uint8") and out.dtype == dt),
+          ("the Mul has no fused activation and no other consumer", (not fused) and (not second)),
+          ("LeakyReLU for a non-negative constant, Abs for -1", z3.If(L(cval) >= 0, res.type == Op.LeakyRelu, z3.And(L(cval) == -1, res.type == Op.Abs))),
+          ("the rewritten operation reads the shared input only", [t.name for t in res.inputs] == ["x"])]
+    if res.type == Op.LeakyRelu:
+        cl.append(("alpha is the constant", L(res.attrs["alpha"]) == L(cval)))
+    return cl
+
+
+FUNCS = {"mulmax_rewrite": mulmax_rewrite, "kernel": kernel, "mbqm": mbqm, "exp_interval": exp_interval, "exp_neg": exp_neg, "exp_neg_struct": exp_neg_struct,
          "lrelu_table": lrelu_table, "quantize_fold": quantize_fold, "hardswish_table": hardswish_table, "quantize_scale": quantize_scale, "tanh_fn": tanh_fn,
          "lut_identity": lut_identity, "softmax_table": softmax_table, "lut8_wrapper": lut8_wrapper}
 
@@ -1089,6 +1158,8 @@ FUNCS = {"kernel": kernel, "mbqm": mbqm, "exp_interval": exp_interval, "exp_neg"
 def instances(tier, seed):
     out = []
     quick = tier == "quick"
+    for sf in (0, 1):
+        out.append(dict(key="mulmax_rewrite/%s" % ("x_first" if sf else "x_second"), fn="mulmax_rewrite", params=dict(shared_first=sf)))
     # operand types that reach each helper (see ASSUMPTIONS); 16-bit helpers also see np.int16/np.int32 produced by other helpers
     for typ in ("pyint", "int64", "int32"):
         for typ2 in ("pyint", "int64") if typ != "pyint" else ("pyint",):
